@@ -425,6 +425,38 @@ Section IO.
       end
     end.
 
+  (* ------------------------------------------------------------------ decimal formatting of numbers *)
+  (* What operator<< followed by operator>> does to a number at [p] significant digits (setprecision(p-1) in
+     scientific notation, setprecision(p) in the default notation): x is replaced by the nearest multiple of
+     10^(e-p+1), where 10^e <= |x| < 10^(e+1).  (Ties: the C library rounds them to even, this model upwards;
+     both are nearest values.)  The exponent is found by comparison with powers of ten, on explicit fuel. *)
+  Fixpoint p10 (n : nat) : T := match n with 0%nat => n1 O | S k => nmul O (nofZ O 10) (p10 k) end.
+  Definition scale10 (e : Z) (x : T) : T :=
+    match e with
+    | Z0 => x
+    | Zpos q => nmul O x (p10 (Pos.to_nat q))
+    | Zneg q => ndiv O x (p10 (Pos.to_nat q))
+    end.
+  Fixpoint exp_up (fuel : nat) (e : Z) (a : T) : Z :=
+    match fuel with
+    | 0%nat => e
+    | S f => if nleb O (scale10 (e + 1) (n1 O)) a then exp_up f (e + 1) a else e
+    end.
+  Fixpoint exp_down (fuel : nat) (e : Z) (a : T) : Z :=
+    match fuel with
+    | 0%nat => e
+    | S f => if nltb O a (scale10 e (n1 O)) then exp_down f (e - 1) a else e
+    end.
+  Definition dec_exp (fuel : nat) (a : T) : Z :=
+    if nleb O (n1 O) a then exp_up fuel 0 a else exp_down fuel 0 a.
+  Definition round_at (k : Z) (x : T) : T :=
+    scale10 (- k) (nofZ O (nfloor O (nadd O (scale10 k x) (nhalf O)))).
+  Definition dec_round (p fuel : nat) (x : T) : T :=
+    if neqb O x (n0 O) then x else round_at (Z.of_nat p - 1 - dec_exp fuel (nabs O x)) x.
+  (* a written stream as it is read back: every number rounded to p digits *)
+  Definition fmt_tok (p fuel : nat) (t : tk) : tk := match t with TNum x => TNum (dec_round p fuel x) | _ => t end.
+  Definition fmt_toks (p fuel : nat) (s : list tk) : list tk := map (fmt_tok p fuel) s.
+
   (* ------------------------------------------------------------------ OpenDX header *)
   (* counts, origin (centre of the first bin), one delta line per variable *)
   Fixpoint dx_origin (lower width : list T) : list T :=
